@@ -11,6 +11,9 @@ import ParryModel.C20.Theorems8
 import ParryModel.C20.Theorems9
 import ParryModel.C20.Theorems10
 import ParryModel.C20.Theorems11
+import ParryModel.C20.Theorems12
+import ParryModel.C20.Theorems13
+import ParryModel.C20.Theorems14
 /-!
 # C20 theorems: definedness at the NaN-propagating instance `NaNable = Option Rat`
 (`x/0 = none`, `sqrt` of a negative = `none`, every comparison with `none` is false — IEEE behaviour).
